@@ -300,8 +300,8 @@ def iter_shape(sh):
 @st.composite
 def hyp_cases(draw, tier):
     opts = gen.node_opts(explicit_ids=True)
-    spec = draw(gen.forest_specs(max_nodes=12, max_depth=4, max_width=4, min_nodes=2, opts=opts, alphabet=LABELS))
-    if draw(st.sampled_from([0, 1])):
+    spec = draw(gen.forest_specs(max_nodes=12, max_depth=4, max_width=4, min_nodes=0, opts=opts, alphabet=LABELS))
+    if gen.spec_nodes(spec) and draw(st.sampled_from([0, 1])):
         # a key that is the explicit data_id of one node AND the plain data of another
         flat0 = []
 
